@@ -31,7 +31,7 @@ class C07(core.Check):
     pid = 'C07'
     unproved = [
         'the run-level theorems runStepN_all (normal simulator) and runSkipN_all (fast simulator) cover whole runs for any number of symbols and timeframes and every strategy; runSkipN_gcd is the fast-simulator statement for the own chunk size of the simulator (gcd of the route timeframes, proved to divide every timeframe); both assume that all input arrays have one length; what a hook reads BETWEEN two protocol operations is covered by publish_establishes_inv / the frame lemmas, and by the every-hook get_candles oracle on real sessions',
-        'warm-up injection (candles put into the store before the session) is outside the engine model: oracle only',
+        'warm-up injection is modelled and proved at STORE level (inject_warmup_establishes_inv: the injection leaves StoreInv for every timeframe, any warm-up length); the ENGINE model still starts from empty stores, so that a run with warm-up keeps the invariant is the run-level theorem from that state only by analogy — decided by the oracle sessions with warm-up',
     ]
     gen_keys = ['jesse/services/candle.py:generate_candle_from_one_minutes', 'jesse/modes/backtest_mode.py:_get_fixed_jumped_candle']
     rule = ('translator cross-check of generate_candle_from_one_minutes and _get_fixed_jumped_candle; correspondence of the '
@@ -113,6 +113,11 @@ class C07(core.Check):
                 lines.append(f'st {what} {m} {len(ones)} ' + ' '.join(cw(c) for c in ones) + f' {len(long)} ' + ' '.join(cw(c) for c in long))
                 expect.append(py)
                 res.count(f'store-{what}:{shape}')
+        # warm-up injection (the model behind `inject_warmup_establishes_inv`): whole store state after the real function
+        from props import c20 as c20mod
+        wl, we = c20mod.warm_lines(r, self.budget(60, 1200, boost), c20mod.C20.add_sequence.__get__(self), res)
+        lines += wl
+        expect += we
         outs = core.Driver.run(lines)
         for line, out, py in zip(lines, outs, expect):
             res.seen(line, True)
